@@ -3,4 +3,4 @@ From Coq Require Extraction ExtrOcamlBasic.
 From VBase Require Import MachInt.
 From VModel Require Import Transcript.
 Extraction Language OCaml.
-Separate Extraction prover verifier log_ok context_elems trace_info_elems options_elems.
+Separate Extraction prover verifier log_ok log_ok_uses context_elems trace_info_elems options_elems.
